@@ -837,6 +837,9 @@ def c07_12(ctx):
     return out
 
 
+_C07_13_MEMO = {}
+
+
 def _cond_reference(tokens):
     """consensus structure of the tokens following an OP_IF / OP_NOTIF: (then part, else part, rest) or None when the
     conditional is not closed; nested conditionals stay inside the part they occur in"""
@@ -865,6 +868,25 @@ def c07_13(ctx):
     from sa.cells import Evaluator, Raised, Undecided
     out = []
     m, node, table = table_names(ctx.repo, "op", "OP_CODE_FUNCTIONS")
+    # the verdict depends only on the source of the two handlers and of what they call: remembered per process under a digest of
+    # the whole op module (the self-test evaluates hundreds of variants, most of which leave op.py untouched)
+    import hashlib
+    closure, todo = set(), [table.get(99), table.get(100)]
+    while todo:
+        nm = todo.pop()
+        if nm in closure or nm not in m.functions:
+            continue
+        closure.add(nm)
+        todo += [c.func.id for c in ast.walk(m.functions[nm]) if isinstance(c, ast.Call) and isinstance(c.func, ast.Name)]
+    digest = hashlib.sha256("".join(ast.dump(m.functions[nm]) for nm in sorted(closure)).encode()).hexdigest()
+    if digest in _C07_13_MEMO:
+        res = []
+        for kind, spec, msg, key, hname in _C07_13_MEMO[digest]:
+            fn = m.functions.get(hname)
+            ctx.note_fn(m, fn) if fn is not None else None
+            res.append(ctx.ok(spec, msg, fn, m, key=key) if kind == "ok" else (ctx.bad(spec, msg, fn, m, key=key) if kind == "bad" else ctx.err(spec, msg, fn, m)))
+        return res
+    record = []
     other = next(v for v in (0x51, 0x61, 0x75) if v not in (99, 100, 103, 104))
     seqs = [list(t) for n in range(0, 6) for t in itertools.product((99, 100, 103, 104, other), repeat=n)]
     for code, label in ((99, "OP_IF"), (100, "OP_NOTIF")):
@@ -905,12 +927,18 @@ def c07_13(ctx):
             if bad:
                 break
         ctx.count("cells", n)
+        ctx.note_fn(m, fn)
         if bad and bad[0] == "err":
             out.append(ctx.err(spec, bad[1], fn, m))
+            record.append(("err", spec, bad[1], None, hname))
         elif bad:
             out.append(ctx.bad(spec, bad[1], fn, m, key="nesting:" + label))
+            record.append(("bad", spec, bad[1], "nesting:" + label, hname))
         else:
-            out.append(ctx.ok(spec, "%s: %d (token sequence, top element) cells up to length 5 are split as consensus nests conditionals" % (label, n), fn, m, key="nesting:" + label))
+            msg = "%s: %d (token sequence, top element) cells up to length 5 are split as consensus nests conditionals" % (label, n)
+            out.append(ctx.ok(spec, msg, fn, m, key="nesting:" + label))
+            record.append(("ok", spec, msg, "nesting:" + label, hname))
+    _C07_13_MEMO[digest] = record
     return out
 
 
